@@ -205,14 +205,17 @@ pub fn replay_extreme(cases: &str, verdicts: &str) {
         let (s, e) = (c["s"].as_i64().unwrap() as f64, c["e"].as_i64().unwrap() as i32);
         if c["special"].is_string() { special_case(&mut v, &c); return; }
         let val = s * if e < -1022 { 2f64.powi(-1022) * 2f64.powi(e + 1022) } else { 2f64.powi(e) };
-        let valid = c["valid"].as_bool().unwrap();
         let base = params_of(kind, &ints(&c["base"]));
         let mut p = base.clone();
         p[i] = val;
-        let mag = if s == 0.0 { "zero" } else if e < -1022 { "denormal" } else if e < 0 { "tiny" } else { "huge" };
-        let class = format!("extreme {} {}", mag, if valid { "valid" } else { "invalid" });
-        let id = json!({"kind": kind, "field": i + 1, "value": fj(val), "base": fjs(&base), "valid": valid});
         let fresh = D::new(kind, &p);
+        // verdict "alike" (the smallest subnormal): whatever the constructor decides, setter and bulk update decide the same,
+        // and an accepted value leaves the object equal to the fresh one
+        let alike = c["valid"].as_str() == Some("alike");
+        let valid = if alike { fresh.is_some() } else { c["valid"].as_bool().unwrap() };
+        let mag = if s == 0.0 { "zero" } else if e < -1022 { "denormal" } else if e < 0 { "tiny" } else { "huge" };
+        let class = format!("extreme {} {}", mag, if alike { "alike" } else if valid { "valid" } else { "invalid" });
+        let id = json!({"kind": kind, "field": i + 1, "value": fj(val), "base": fjs(&base), "valid": c["valid"]});
         v.check(fresh.is_some() == valid, kind, &format!("new {}", class), &id, json!(fresh.is_some()));
         if let Some(mut o) = D::new(kind, &base) {
             let before = o.debug();
